@@ -56,6 +56,10 @@ OPS = {"eq": operator.eq, "ne": operator.ne, "add": operator.add, "sub": operato
 
 def run(data):
     out = []
+    if data.get("define_dimension"):
+        # an application adds a fundamental dimension (every known dimension's exponent tuple grows) before the cases run
+        from measured import Dimension
+        Dimension.define(*data["define_dimension"])
     for c in data["cases"]:
         rec = {}
         try:
